@@ -40,6 +40,12 @@ def gen_trace(rng):
         if sc == 'top' and 'top.u' in scopes and rng.random() < 0.6:
             # a sibling of the scope top.u whose name is the scope's name immediately followed by more text
             leafs.add('u' + rng.choice(['_valid', '_ready', 'x', '_q', 'data']))
+        if sc == 'top':
+            # numbered instances whose numbers differ in length: the result of groups is in plain string order
+            # (m10_ before m2_ before m9_), whatever a "natural" order would say
+            numsuf = rng.choice(SEPS[:2]) + rng.choice(SUFS)
+            for st in rng.sample(['m2', 'm10', 'm9', 'm02', 'ab<10>', 'ab<9>'], rng.randrange(2, 6)):
+                leafs.add(st + numsuf)
         names[sc] = sorted(leafs)
     lines = ['$timescale 1ns $end']
     opened = []
@@ -69,7 +75,7 @@ def gen_trace(rng):
         lines.append('#%d' % (i * 10))
         for full, col in sig.items():
             lines.append('b%s %s' % (format(col[i], 'b'), ids[full]))
-    return '\n'.join(lines) + '\n', {'n': n, 'signals': sig, 'scopes': scopes}
+    return '\n'.join(lines) + '\n', {'n': n, 'signals': sig, 'scopes': scopes, 'numsuf': numsuf}
 
 
 def brute_groups(names, cs, sufs):
@@ -149,12 +155,14 @@ def gen_case(rng, cid):
         ev(f'(step {-(info["n"] - 1)})')
     # missing signals must raise (each in its own session: done by separate cases, see gen_missing)
     # (b) groups
-    for _ in range(5):
+    for gi in range(6):
         k = rng.randrange(1, 4)
         sufs = [rng.choice(SEPS) + rng.choice(SUFS) for _ in range(k)]
-        if rng.random() < 0.3:
+        if gi == 5:
+            sufs = [info['numsuf']]
+        elif rng.random() < 0.3:
             sufs[0] = rng.choice(['.valid', '.data', 'xvalid', '_ready', 'valid'])
-        cs = rng.choice([''] + info['scopes'])
+        cs = rng.choice([''] + info['scopes']) if gi < 5 else rng.choice(['', 'top'])
         lits = ' '.join('"%s"' % s for s in sufs)
         txt = f'(groups {lits})' if not cs else f'(in-scope "{cs}" (groups {lits}))'
         p = ev(txt)
